@@ -39,6 +39,14 @@ def main(run):
         if not q:
             js.append(dict(j, cfg="asan64", fill=0xFF))
             js.append(dict(j, cfg="asan32", fill=0x00))
+    if not q:
+        # 3. memcheck on the Release build with unfilled scratch for a sample of the jobs
+        sample = [j for i, j in enumerate(_collect(MODULES, "quick", 0.02, {"c13": 8, "c16": 6, "c02": 5, "c17": 4, "c06": 6,
+                                                                            "c05_zz": 3, "c12": 4, "c08": 3, "c01": 3}, run.seed)[0])
+                  if "tl_exhaust" not in j["unit"] and "window" not in j["unit"]]
+        for j in sample:
+            js.append(dict(j, cfg="rel64", fill=-1, memcheck=True, timeout=3000))
+        run.coverage_extra["memcheck_sample_jobs"] = len(sample)
     run.coverage_extra["replayed_modules_missing"] = missing
     run.coverage_extra["replayed_jobs"] = len(base)
     run.run_jobs(js, timeout=3000)
@@ -50,6 +58,16 @@ def main(run):
         if not key.startswith(SANITIZER_PREFIXES):
             tallied[key] = run.viol.pop(key)["count"]
     run.coverage_extra["functional_violation_keys_tallied_only"] = sorted(tallied)[:50]
+    # which public entry points did the workloads drive directly (the others are reached only indirectly or not at all)
+    try:
+        from .. import proto
+        allp = set(proto.parse_headers())
+        called = set(run.extra.get("functions_called", []))
+        run.coverage_extra["public_functions_total"] = len(allp)
+        run.coverage_extra["public_functions_called_directly"] = len(called & allp)
+        run.coverage_extra["public_functions_not_called_directly"] = sorted(allp - called)
+    except Exception as e:
+        run.coverage_extra["public_functions_error"] = str(e)
     if compared == 0 and not run.harness_errors:
         run.harness_fail("two-fill differential compared no case")
     return run.finish(
